@@ -214,6 +214,45 @@ theorem winv_init (outCap nq : Nat) : WInv (work outCap) (init nq) := by
 
 end Drv
 
+namespace Copy
+
+theorem run_counts (l : List RKind) (s : CQ) :
+    (l.foldl deliver s).f = s.f - l.count .flush ∧ (l.foldl deliver s).c = s.c - l.count .copy := by
+  induction l generalizing s with
+  | nil => simp
+  | cons k t ih =>
+    cases k
+    · have := ih (deliver s .flush)
+      simp only [List.foldl_cons, deliver] at this ⊢
+      simp only [List.count_cons_self, this]
+      constructor
+      · omega
+      · simp
+    · have := ih (deliver s .copy)
+      simp only [List.foldl_cons, deliver] at this ⊢
+      simp only [List.count_cons_self, this]
+      constructor
+      · simp
+      · omega
+
+/-- while a flush response is still missing, no copy response completes the command -/
+theorem stays_queued (l : List RKind) (s : CQ) (hf : l.count .flush < s.f) (hq : s.queued = true) :
+    (l.foldl deliver s).queued = true := by
+  induction l generalizing s with
+  | nil => exact hq
+  | cons k t ih =>
+    cases k
+    · simp only [List.count_cons_self] at hf
+      refine ih (deliver s .flush) ?_ hq
+      simp only [deliver]; omega
+    · have hf' : t.count .flush < s.f := by simpa [List.count_cons] using hf
+      refine ih (deliver s .copy) hf' ?_
+      simp only [deliver, hq, Bool.true_and, Bool.not_eq_true', beq_eq_false_iff_ne]
+      omega
+
+end Copy
+
 end W
+
 
 end C12
